@@ -551,6 +551,34 @@ func replayObligation(eng *Engine, res *UnitResult, o *Obligation) (bool, string
 	if o.Group == "pre" || o.Group == "overflow" {
 		// a violated callee precondition usually shows as a panic further down; try the call anyway
 	}
+	// the input must satisfy the function's precondition, otherwise a panic proves nothing
+	reqCheck := ""
+	if u.ct != nil && len(u.ct.Requires) > 0 {
+		tr := &specTranslator{u: u, rename: map[string]string{}, ghostOf: ghostOf}
+		for i := 0; i < sig.Params().Len(); i++ {
+			if n := sig.Params().At(i).Name(); n != "" && n != "_" {
+				tr.rename[n] = "a_" + n
+			}
+		}
+		if sig.Recv() != nil && sig.Recv().Name() != "" {
+			tr.rename[sig.Recv().Name()] = "a_" + sig.Recv().Name()
+		}
+		var parts []string
+		for _, r := range u.ct.Requires {
+			g, err := tr.translate(r.Expr)
+			if err != nil {
+				return false, "precondition not executable in replay (" + err.Error() + "): a failure of the call would not be conclusive"
+			}
+			parts = append(parts, "("+g+")")
+		}
+		reqCheck = strings.Join(parts, " && ")
+		rc.helpers = append(rc.helpers, tr.helpers...)
+	}
+	for _, n := range rc.notes {
+		if strings.Contains(n, "left zero") {
+			return false, "the model's input could not be constructed completely (" + n + "): replay would not be conclusive"
+		}
+	}
 	var b strings.Builder
 	fmt.Fprintf(&b, "package %s\n\nimport (\n\t\"bytes\"\n\t\"fmt\"\n\t\"io\"\n\t\"strings\"\n\t\"testing\"\n)\n\nvar _ = strings.Repeat\nvar _ = bytes.NewReader\nvar _ = io.EOF\nvar _ = fmt.Sprint\n\n", u.pkg.Types.Name())
 	b.WriteString("func vite[T any](c bool, a, b T) T {\n\tif c {\n\t\treturn a\n\t}\n\treturn b\n}\n\n")
@@ -561,6 +589,9 @@ func replayObligation(eng *Engine, res *UnitResult, o *Obligation) (bool, string
 	b.WriteString("func TestVerifReplay(t *testing.T) {\n")
 	for _, p := range pre {
 		b.WriteString("\t" + p + "\n")
+	}
+	if reqCheck != "" {
+		fmt.Fprintf(&b, "\tif func() (ok bool) { defer func() { if recover() != nil { ok = false } }(); return %s }() == false {\n\t\tfmt.Println(\"REPLAY-PRECONDITION-NOT-MET\")\n\t\treturn\n\t}\n", reqCheck)
 	}
 	b.WriteString("\tpanicked := true\n\tdefer func() {\n\t\tif panicked {\n\t\t\tfmt.Printf(\"REPLAY-PANIC: %v\\n\", recover())\n\t\t}\n\t}()\n")
 	if len(results) > 0 {
@@ -593,11 +624,13 @@ func replayObligation(eng *Engine, res *UnitResult, o *Obligation) (bool, string
 	ctx, cancel := context.WithTimeout(context.Background(), 300*time.Second)
 	defer cancel()
 	cmd := exec.CommandContext(ctx, "bash", "-c", fmt.Sprintf("ulimit -v 8388608; cd %q && go test -overlay %q -vet=off -v -count=1 -timeout 60s -run '^TestVerifReplay$' .", pkgDir, ovFile))
-	cmd.Env = append(os.Environ(), "GOFLAGS=-mod=mod", "GOPROXY=off", "GOSUMDB=off", "GOTOOLCHAIN=local")
+	cmd.Env = append(os.Environ(), "GOFLAGS=-mod=readonly", "GOPROXY=off", "GOSUMDB=off", "GOTOOLCHAIN=local")
 	out, _ := cmd.CombinedOutput()
 	text := string(out)
 	report := fmt.Sprintf("test source: %s\n%s\noutput:\n%s", srcFile, strings.Join(rc.notes, "\n"), firstLines(text, 30))
 	switch {
+	case strings.Contains(text, "REPLAY-PRECONDITION-NOT-MET"):
+		return false, "the model's input does not satisfy the precondition when evaluated on the real values\n" + report
 	case strings.Contains(text, "REPLAY-PANIC"):
 		return o.Group != "post" || true, "the real function panics on the model's input\n" + report
 	case strings.Contains(text, "REPLAY-POST-VIOLATED"):
